@@ -332,6 +332,7 @@ func RunExpr(ctx *Task, node *ast.Node) *errchain.PlError {
 
 	// TODO
 	case ast.TypeAttrExpr:
+		ctx.Regs.Reset()
 		return nil
 
 	case ast.TypeBoolLiteral:
@@ -1034,6 +1035,7 @@ func changeListOrMapValue(ctx *Task, obj any, index []*ast.Node, val V) *errchai
 }
 
 func RunCallExpr(ctx *Task, expr *ast.CallExpr) *errchain.PlError {
+	ctx.Regs.Reset()
 	if funcCall, ok := ctx.GetFn(expr.Name); ok {
 		if err := funcCall(ctx, expr); err != nil {
 			return err
